@@ -1,5 +1,6 @@
 import RpmVerif.Lemmas.ExtractBenign
 import RpmVerif.Lemmas.PkgFiles
+import RpmVerif.Props.Pipeline
 /-!
 # C12 — extraction recreates the files and never touches anything outside the target
 
@@ -46,7 +47,12 @@ from nothing else:
                         the lengths are the real digest sizes is C05 `file_digest_lengths_standard`);
 * `compressor_tables_agree`, `default_compressor_is_identity`, `payload_compressor_bridge` : the compressor variant is the one whose name C05's accessor
                         (`Acc.getPayloadCompressor`, compared with the real code on every C05 run) answers;
-* `extract_package_hostile`, `extract_package_total` : the hostile clause for every parsed package.
+* `extract_package_hostile`, `extract_package_total` : the hostile clause for every parsed package;
+* `build_input`, `build_benign`, `extract_package_benign` : what `extract` reads from the package `PackageBuilder::build`
+                        returns is the builder's own directory set and files (C06 `readback_file_entries`, C07
+                        `files_of_build` through `Pipeline.build_files_roundtrip`), so the benign clause holds for every
+                        built package whose input is benign: `Ok`, contained, every builder file at destination + path as
+                        the node its mode, content and link target prescribe.
 
 What the hypotheses about the caller's side mean (`TargetClean`): the destination's components are
 ordinary names, its proper ancestors are directories (so "below the destination" is meant physically),
@@ -197,14 +203,16 @@ theorem extract_log_sound (inp : Input) (T : List Name) (fs : Fs) :
 names and entries, any contents, all 12 permission bits, any link targets — extracted into a vacant
 destination whose ancestors are directories, the run ends with `ok`, nothing outside the destination
 changes, and every directory, regular file and link entry is at destination+path with exactly its
-permission bits, content and link target. -/
+permission bits, content and link target. (`benign` includes `shortNames`: no component longer than `NAME_MAX` = 255
+bytes - with a longer one `create_dir_all` / `File::create` / `symlink` fail with `ENAMETOOLONG`, see
+`long_name_witness`; `TargetReady` asks the same of the destination.) -/
 theorem extract_benign (inp : Input) (T : Path) (fs : Fs) (hb : benign inp = true) (hr : TargetReady fs T) :
     (extract inp T fs).out = .ok () ∧ Contained T fs (extract inp T fs).fs ∧ Faithful T inp (extract inp T fs).fs := by
-  obtain ⟨ds, hds, htail, hdn, hbi, hnodup⟩ := benign_spec hb
+  obtain ⟨ds, hds, htail, hdn, hds', hbi, hnodup⟩ := benign_spec hb
   obtain ⟨hmk, k0⟩ := mkdir_ready hr
-  obtain ⟨fs1, h1, k1⟩ := dirs_ok hr.normal hr.nonroot ds [] _ k0 hdn
+  obtain ⟨fs1, h1, k1⟩ := dirs_ok hr.normal hr.nonroot ds [] _ k0 hdn hds'
   have k1' : K T fs (fs1) ds [] := k1.congr (by simp) (by simp)
-  obtain ⟨fs2, h2, k2⟩ := items_ok hr.normal hr.nonroot hbi inp.items [] fs1 k1' (fun _ h => h) (by simp) hnodup (by simp)
+  obtain ⟨fs2, h2, k2⟩ := items_ok hr.normal hr.nonroot hr.short hbi inp.items [] fs1 k1' (fun _ h => h) (by simp) hnodup (by simp)
   have hres : extract inp T fs = ⟨.ok (), fs2⟩ := by
     unfold extract
     rw [hmk]
@@ -246,11 +254,22 @@ theorem input_files_failed (p : Package) (a? : Option Bytes)
 theorem input_of_files (p : Package) (a? : Option Bytes) (es : List Acc.FileEntry) (v : Nat) (a : Bytes)
     (he : Acc.getFileEntries p.md.signature p.md.header = .ok es)
     (hv : Acc.getPayloadCompressorVariant p.md.header = .ok v)
-    (ha : (if payloadIsArchive v then some p.content else a?) = some a) :
-    extractInput p a? = some ⟨dirnamesOf p, (collect es (Cpio.iterate a (pathsOf es) (sizesOf es))).1,
+    (ha : (if payloadIsArchive v then some p.content else a?) = some a)
+    (supported : Nat → Bool := fun _ => true) (hs : supported v = true := by rfl) :
+    extractInput p a? supported = some ⟨dirnamesOf p, (collect es (Cpio.iterate a (pathsOf es) (sizesOf es))).1,
                                            (collect es (Cpio.iterate a (pathsOf es) (sizesOf es))).2⟩ := by
   unfold extractInput dirnamesOf
-  simp only [he, hv, ha, itemsOf, pathsOf, sizesOf]
+  simp only [he, hv, ha, hs, itemsOf, pathsOf, sizesOf, Bool.not_true, Bool.false_eq_true, if_false]
+
+/-- the codec the header names is not compiled into the library (`decompress_stream`'s `_ => Err(UnsupportedCompressorType)`):
+`files()` fails, `extract` sees no item and an error after the directory names — whatever the payload is -/
+theorem input_unsupported (p : Package) (a? : Option Bytes) (es : List Acc.FileEntry) (v : Nat)
+    (he : Acc.getFileEntries p.md.signature p.md.header = .ok es)
+    (hv : Acc.getPayloadCompressorVariant p.md.header = .ok v)
+    (supported : Nat → Bool) (hs : supported v = false) :
+    extractInput p a? supported = some ⟨dirnamesOf p, [], false⟩ := by
+  unfold extractInput dirnamesOf
+  simp only [he, hv, hs, Bool.not_false, if_true]
 
 theorem input_items_are_iteration (es : List Acc.FileEntry) (a : Bytes) :
     (itemsOf es a).1.map some = (okPrefix (Cpio.iterate a (pathsOf es) (sizesOf es))).map (fun x => itemOf es x.1 x.2)
@@ -388,7 +407,7 @@ theorem extract_package_total (p : Package) (es : List Acc.FileEntry) (a : Bytes
 `/decoy/link` → `file`; `/target` is vacant -/
 def jail : Fs :=
   ⟨[([], .dir 0o755), ([nDecoy], .dir 0o755), ([nDecoy, nFile], .file nDecoy 0o644), ([nDecoy, nDir], .dir 0o750),
-    ([nDecoy, nLink], .symlink nFile)], []⟩
+    ([nDecoy, nLink], .symlink nFile)], [], 0o022⟩
 
 theorem jail_vacant : ∀ q, [nTarget] <+: q → jail.get q = none := by
   intro q hq
@@ -404,7 +423,7 @@ theorem jail_clean : TargetClean jail [nTarget] :=
   ⟨by decide, fun k hk hk2 => by simp at hk2; omega, fun q hq _ => jail_vacant q hq⟩
 
 theorem jail_ready : TargetReady jail [nTarget] :=
-  ⟨by decide, by decide, fun k hk hk2 => by simp at hk2; omega, jail_vacant⟩
+  ⟨by decide, by decide, by decide, fun k hk hk2 => by simp at hk2; omega, jail_vacant⟩
 
 /-- DIRNAMES `["/"]`, one regular file `/../decoy/file` (content `pwned`, mode 0600) -/
 def wDotDot : Input :=
@@ -606,5 +625,279 @@ example : Contained [nTarget] jail (extract wViewOk [nTarget] jail).fs :=
   (extract_package_hostile (wPkg none []) none wViewOk (by decide +kernel) [nTarget] jail jail_clean).2.2.1
 example : (extract wViewOk [nTarget] jail).out = .ok () ∧
     (extract wViewOk [nTarget] jail).fs.get [nTarget, nF] = some (.file [104, 105] 0o644) := by decide +kernel
+
+/-! ### damaged and truncated compressed payloads: what a streaming decoder lets `extract` see (AUDIT2 a12) -/
+
+theorem prefix_of_map_some {α} {l1 l2 : List α} (h : l1.map some <+: l2.map some) : l1 <+: l2 := by
+  obtain ⟨t, ht⟩ := h
+  obtain ⟨a, b, hab, ha, _⟩ := List.map_eq_append_iff.mp ht.symm
+  have : a = l1 := (List.map_inj_right (fun _ _ h => Option.some.inj h)).mp ha
+  subst this
+  exact ⟨b, hab.symm⟩
+
+/-- **a damaged payload: `extract` sees an initial segment of the intact package's items.** With the decoder handing out
+only the bytes `pre` of what the intact payload decodes to (`pre ++ t`), the items are a prefix of the intact ones — each
+still the content of its own archive entry under the metadata of the header file that entry designates
+(`input_item_designated`) — and, unless the cpio trailer lies inside `pre`, the iteration ends with an error: `extract`
+then stops with `Err` after having written those items (a partial extraction, contained like every other run:
+`extract_package_hostile`). -/
+theorem input_items_prefix (es : List Acc.FileEntry) (pre t : Bytes) :
+    (itemsOf es pre).1 <+: (itemsOf es (pre ++ t)).1 := by
+  apply prefix_of_map_some
+  rw [(input_items_are_iteration es pre).1, (input_items_are_iteration es (pre ++ t)).1]
+  apply List.IsPrefix.map
+  have h := FileIter.okPrefix_iterateE_append (pathsOf es) (sizesOf es) (sizesOf es).length pre t
+  simp only [Cpio.iterate, Cpio.iterateFrom, C07.okPrefix_map_outMap]
+  exact h.map _
+
+/-- … and when the trailer does lie inside `pre` nothing of the damage is seen: same items, clean end -/
+theorem input_items_clean (es : List Acc.FileEntry) (pre t : Bytes) (h : (itemsOf es pre).2 = true) :
+    itemsOf es (pre ++ t) = itemsOf es pre := by
+  have hall := (input_items_are_iteration es pre).2.mp h
+  have hcl : ∀ o ∈ Cpio.iterateE (pathsOf es) (sizesOf es) (sizesOf es).length pre, o.isOk = true := by
+    intro o ho
+    have := hall (o.map fun x => (x.1, x.2.2)) (List.mem_map.mpr ⟨o, ho, rfl⟩)
+    cases o <;> simp_all [Out.map, Out.isOk]
+  unfold itemsOf
+  have e : Cpio.iterate (pre ++ t) (pathsOf es) (sizesOf es) = Cpio.iterate pre (pathsOf es) (sizesOf es) := by
+    simp only [Cpio.iterate, Cpio.iterateFrom]
+    rw [FileIter.iterateE_append_clean (pathsOf es) (sizesOf es) _ pre t hcl]
+  exact congrArg (collect es) e
+
+/-! ### `NAME_MAX`: names longer than 255 bytes (AUDIT2 a20) -/
+
+/-- a creating call whose new component is longer than `NAME_MAX` is refused, wherever it resolves to -/
+theorem create_long_refused {fs : Fs} {cs : List Name} {q : Path} (hv : fs.get q = none) (hl : nameTooLong q = true) :
+    (resolve fs false cs = .ok q → mkdir fs cs = .error .ENAMETOOLONG) ∧
+    (∀ c, resolve fs true cs = .ok q → fileCreate fs cs c = .error .ENAMETOOLONG) ∧
+    (∀ t, t ≠ [] → resolve fs false cs = .ok q → symlink fs cs t = .error .ENAMETOOLONG) := by
+  refine ⟨fun hr => ?_, fun c hr => ?_, fun t ht hr => ?_⟩
+  · unfold mkdir; rw [hr]; simp only [hv, hl, if_true]
+  · unfold fileCreate; rw [hr]; simp only [hv, hl, if_true]
+  · unfold symlink
+    have : t.isEmpty = false := by cases t <;> simp_all
+    rw [this, hr]; simp only [hv, hl, if_true, Bool.false_eq_true, if_false]
+
+/-- … hence no successful creating call ever makes such a name -/
+theorem created_names_short {fs fs' : Fs} {cs : List Name} :
+    (mkdir fs cs = .ok fs' → ∃ q n, fs' = fs.set q n ∧ nameTooLong q = false) ∧
+    (∀ t, symlink fs cs t = .ok fs' → ∃ q n, fs' = fs.set q n ∧ nameTooLong q = false) := by
+  constructor
+  · intro h
+    unfold mkdir at h
+    split at h
+    · cases h
+    · split at h
+      · cases h
+      · split at h
+        · cases h
+        · rename_i q _ _ _ hs
+          injection h with h
+          exact ⟨q, _, h.symm, by simpa using hs⟩
+  · intro t h
+    unfold symlink at h
+    split at h
+    · cases h
+    · split at h
+      · cases h
+      · split at h
+        · cases h
+        · split at h
+          · cases h
+          · rename_i q _ _ _ hs
+            injection h with h
+            exact ⟨q, _, h.symm, by simpa using hs⟩
+
+/-- a 256-byte name -/
+def nLong : Name := List.replicate 256 78
+/-- DIRNAMES `["/", "/p/q/NNN…N/"]` (256 × `N`), one regular file `/f` -/
+def wLong : Input :=
+  ⟨some [[47], [47, 112, 47, 113, 47] ++ nLong ++ [47]], [⟨[47, 102], .regular, 0o644, [120], []⟩], true⟩
+
+/-- **a failing `create_dir_all` is not atomic**: for the directory name `/p/q/<256 bytes>/` the first `mkdir` answers
+`ENOENT`, the ancestors `p` and `p/q` are created, the second `mkdir` answers `ENAMETOOLONG`; `extract` ends with that
+error, the ancestors stay (`createDirAllLeft`), nothing outside the destination changes, and the file entry is never
+reached. (The same happens on Linux: the case `NAME_MAX` of the correspondence.) -/
+theorem long_name_witness :
+    (extract wLong [nTarget] jail).out = .err "ENAMETOOLONG" ∧
+    (extract wLong [nTarget] jail).fs.get [nTarget, [112], [113]] = some (.dir 0o755) ∧
+    (extract wLong [nTarget] jail).fs.get [nTarget, [112], [113], nLong] = none ∧
+    (extract wLong [nTarget] jail).fs.get [nTarget, [102]] = none ∧
+    benign wLong = false ∧ shortNames wLong = false := by decide +kernel
+
+/-- with 255 bytes the same package is benign and extracted completely -/
+theorem name_max_witness :
+    let w : Input := ⟨some [[47], [47, 112, 47] ++ List.replicate 255 78 ++ [47]],
+      [⟨[47, 112, 47] ++ List.replicate 255 78 ++ [47, 102], .regular, 0o644, [120], []⟩], true⟩
+    benign w = true ∧ (extract w [nTarget] jail).out = .ok () ∧
+      (extract w [nTarget] jail).fs.get [nTarget, [112], List.replicate 255 78, [102]] = some (.file [120] 0o644) := by
+  decide +kernel
+
+/-! ### built packages: `benign (extractInput (build cfg))` and the benign clause at the package level (AUDIT2 c38) -/
+section built
+open RpmVerif.Bld RpmVerif.Cpio
+
+/-- one builder file (entry + content) as the item `extract` has to write -/
+def builtItem (p : FileE × Bytes) : Item :=
+  ⟨Acc.pathJoin p.1.dir p.1.baseName, kindOf p.1.mode, FileMode.permissions (FileMode.fromU16 p.1.mode), p.2, p.1.link⟩
+
+/-- what `extract` has to find in the package the builder made of `c` / `fes` -/
+def builtInput (c : Cfg) (fes : List (FileE × Bytes)) : Input := ⟨some c.directories, fes.map builtItem, true⟩
+
+theorem collect_zipIdx (x : Ctx) (es : List Acc.FileEntry) : ∀ (l : List (FileE × Bytes)) (k : Nat),
+    (∀ i (hi : i < l.length), es[k + i]? = some (C06.entryOf x l[i].1)) →
+    collect es ((l.zipIdx k).map fun y => (Out.ok (y.2, y.1.2) : Out (Nat × Bytes))) = (l.map builtItem, true) := by
+  intro l
+  induction l with
+  | nil => intro k _; rfl
+  | cons p r ih =>
+    intro k h
+    have h0 := h 0 (by simp)
+    simp only [Nat.add_zero, List.getElem_cons_zero] at h0
+    have hr := ih (k + 1) (fun i hi => by
+      have := h (i + 1) (by simpa using hi)
+      simpa [Nat.add_assoc, Nat.add_comm 1 i] using this)
+    simp only [List.zipIdx_cons, List.map_cons, collect, itemOf, h0, Option.map_some, hr]
+    rfl
+
+
+/-- the cpio iteration over the archive the builder writes, against the header columns of the built package: one `Ok`
+per builder file, in order, under its own index (C07 `files_of_build(_large)` through Pipeline `build_files_roundtrip`
+with the identity codec) -/
+theorem built_iteration (c : Cfg) (fes : List (FileE × Bytes)) (hfiles : c.files = fes.map (·.1)) (hd : DirsOk c)
+    (hf : ∀ p ∈ fes, C09.FileOk p) (hs : ∀ p ∈ fes, Pipeline.DirShape p.1) (hnd : (fes.map (·.1.cpioPath)).Nodup)
+    (hn : fes.length < 4294967295) {uid gid : Nat} (hu : uid < 4294967296) (hg : gid < 4294967296) :
+    Cpio.iterate (C09.archiveFor c uid gid fes) (c.files.map fun f => Acc.pathJoin f.dir f.baseName) (c.files.map (·.size))
+      = fes.zipIdx.map fun y => .ok (y.2, y.1.2) := by
+  have h := Pipeline.build_files_roundtrip id c 0 fes hfiles hd hf hs hnd hn hu hg id .ok (fun _ => rfl)
+  rw [Pipeline.build_file_lists id c 0 _ _ hd] at h
+  simpa [Cpio.files] using h
+
+/-- **what `extract` reads from a built package is the builder's input.** For the package `build` returns for
+configuration `c` with files `fes` (entry + content, in path order; `add_data` guarantees `FileOk`, `DirShape`, `DirsOk`,
+`DigestsOk`), archive `C09.archiveFor c uid gid fes`, ANY payload bytes whose decompression is that archive (`ha`: the
+payload itself for `CompressionType::None`, otherwise what the codec - a parameter here - returns): `PkgFiles.extractInput`
+- the composition of `get_file_entries`, `get_payload_compressor`, the cpio iteration and DIRNAMES that `Package::extract`
+makes - is DIRNAMES = the builder's directory set and one item per builder file, in order, with that file's destination
+path, kind and permission bits of its mode, content and link target; the iteration ends cleanly. -/
+theorem build_input (sha256 : Bytes → Bytes) (c : Cfg) (now : Nat) (fes : List (FileE × Bytes))
+    (hfiles : c.files = fes.map (·.1)) (hne : fes ≠ []) (hd : DirsOk c) (hdig : C06.DigestsOk c)
+    (hf : ∀ p ∈ fes, C09.FileOk p) (hs : ∀ p ∈ fes, Pipeline.DirShape p.1) (hnd : (fes.map (·.1.cpioPath)).Nodup)
+    (hn : fes.length < 4294967295) {uid gid : Nat} (hu : uid < 4294967296) (hg : gid < 4294967296)
+    (payload : Bytes) (a? : Option Bytes) {v : Nat}
+    (hv : Acc.getPayloadCompressorVariant (build c now (Pipeline.hexOf sha256) (C09.archiveFor c uid gid fes) payload).md.header = .ok v)
+    (ha : (if payloadIsArchive v then some payload else a?) = some (C09.archiveFor c uid gid fes)) :
+    extractInput (build c now (Pipeline.hexOf sha256) (C09.archiveFor c uid gid fes) payload) a? = some (builtInput c fes) := by
+  have hfe := Pipeline.build_file_entries sha256 c now (C09.archiveFor c uid gid fes) payload hd hdig
+  have hnef : c.files.isEmpty = false := by
+    rw [hfiles]; cases fes with
+    | nil => exact absurd rfl hne
+    | cons => rfl
+  have hdn : getStringArray (build c now (Pipeline.hexOf sha256) (C09.archiveFor c uid gid fes) payload).md.header IndexTag.RPMTAG_DIRNAMES
+      = .ok c.directories :=
+    C06.readback_file_array (mkCtx c now _ _) IndexData.asStringArray (i := 36) (f := fun x => .strArray x.c.directories) rfl hnef rfl
+  have hcontent : (build c now (Pipeline.hexOf sha256) (C09.archiveFor c uid gid fes) payload).content = payload := rfl
+  unfold extractInput
+  simp only [hfe, hv, hdn, hcontent, ha, Out.toOption, itemsOf, List.map_map]
+  have e1 : (c.files.map ((fun e : Acc.FileEntry => e.path) ∘ C06.entryOf (mkCtx c now (Pipeline.hexOf sha256 payload) (Pipeline.hexOf sha256 (C09.archiveFor c uid gid fes)))))
+      = c.files.map fun f => Acc.pathJoin f.dir f.baseName := rfl
+  have e2 : (c.files.map ((fun e : Acc.FileEntry => e.size) ∘ C06.entryOf (mkCtx c now (Pipeline.hexOf sha256 payload) (Pipeline.hexOf sha256 (C09.archiveFor c uid gid fes)))))
+      = c.files.map (·.size) := rfl
+  rw [e1, e2, built_iteration c fes hfiles hd hf hs hnd hn hu hg]
+  have hc := collect_zipIdx (mkCtx c now (Pipeline.hexOf sha256 payload) (Pipeline.hexOf sha256 (C09.archiveFor c uid gid fes)))
+    (c.files.map (C06.entryOf (mkCtx c now (Pipeline.hexOf sha256 payload) (Pipeline.hexOf sha256 (C09.archiveFor c uid gid fes))))) fes 0
+    (fun i hi => by simp [hfiles, List.getElem?_eq_getElem hi])
+  rw [hc]
+  rfl
+
+
+/-- **`benign (extractInput (build cfg))`**: when the builder's own input - its directory set and its files - is benign
+(decidable on the configuration: three file kinds, no `..`, distinct normalised paths, parents among the directory
+names, no file or link used as a directory, no empty link target), so is what `extract` reads from the built package -/
+theorem build_benign (sha256 : Bytes → Bytes) (c : Cfg) (now : Nat) (fes : List (FileE × Bytes))
+    (hfiles : c.files = fes.map (·.1)) (hne : fes ≠ []) (hd : DirsOk c) (hdig : C06.DigestsOk c)
+    (hf : ∀ p ∈ fes, C09.FileOk p) (hs : ∀ p ∈ fes, Pipeline.DirShape p.1) (hnd : (fes.map (·.1.cpioPath)).Nodup)
+    (hn : fes.length < 4294967295) {uid gid : Nat} (hu : uid < 4294967296) (hg : gid < 4294967296)
+    (payload : Bytes) (a? : Option Bytes) {v : Nat}
+    (hv : Acc.getPayloadCompressorVariant (build c now (Pipeline.hexOf sha256) (C09.archiveFor c uid gid fes) payload).md.header = .ok v)
+    (ha : (if payloadIsArchive v then some payload else a?) = some (C09.archiveFor c uid gid fes))
+    (hb : benign (builtInput c fes) = true) :
+    ∃ inp, extractInput (build c now (Pipeline.hexOf sha256) (C09.archiveFor c uid gid fes) payload) a? = some inp ∧
+      benign inp = true ∧ inp.dirnames = some c.directories ∧ inp.items = fes.map builtItem :=
+  ⟨_, build_input sha256 c now fes hfiles hne hd hdig hf hs hnd hn hu hg payload a? hv ha, hb, rfl, rfl⟩
+
+/-- the node a builder file must become: by the type bits of its mode a directory / regular file / link with the 12
+permission bits of that mode, its content, its link target -/
+theorem wantNode_builtItem (p : FileE × Bytes) :
+    wantNode (builtItem p) =
+      match kindOf p.1.mode with
+      | .dir => some (.dir (FileMode.permissions (FileMode.fromU16 p.1.mode)))
+      | .regular => some (.file p.2 (FileMode.permissions (FileMode.fromU16 p.1.mode)))
+      | .symlink => some (.symlink p.1.link)
+      | .other => none := by
+  unfold wantNode builtItem
+  cases kindOf p.1.mode <;> rfl
+
+/-- **the benign clause for built packages** ("creates, for every regular file, directory and symbolic link in the
+package, an entry at target+path with the archived content, permission bits and link target", for all built packages
+whose own input is benign): extracting the package `build` returns into a vacant destination ends `Ok`, changes nothing
+outside the destination, and EVERY builder file is at destination + its destination path as the node its mode, content
+and link target prescribe (`wantNode_builtItem`). -/
+theorem extract_package_benign (sha256 : Bytes → Bytes) (c : Cfg) (now : Nat) (fes : List (FileE × Bytes))
+    (hfiles : c.files = fes.map (·.1)) (hne : fes ≠ []) (hd : DirsOk c) (hdig : C06.DigestsOk c)
+    (hf : ∀ p ∈ fes, C09.FileOk p) (hs : ∀ p ∈ fes, Pipeline.DirShape p.1) (hnd : (fes.map (·.1.cpioPath)).Nodup)
+    (hn : fes.length < 4294967295) {uid gid : Nat} (hu : uid < 4294967296) (hg : gid < 4294967296)
+    (payload : Bytes) (a? : Option Bytes) {v : Nat}
+    (hv : Acc.getPayloadCompressorVariant (build c now (Pipeline.hexOf sha256) (C09.archiveFor c uid gid fes) payload).md.header = .ok v)
+    (ha : (if payloadIsArchive v then some payload else a?) = some (C09.archiveFor c uid gid fes))
+    (hb : benign (builtInput c fes) = true) (T : Path) (fs : Fs) (hr : TargetReady fs T) :
+    ∃ inp, extractInput (build c now (Pipeline.hexOf sha256) (C09.archiveFor c uid gid fes) payload) a? = some inp ∧
+      (extract inp T fs).out = .ok () ∧ Contained T fs (extract inp T fs).fs ∧
+      ∀ p ∈ fes, (extract inp T fs).fs.get (T ++ compsD (Acc.pathJoin p.1.dir p.1.baseName)) = wantNode (builtItem p) := by
+  refine ⟨_, build_input sha256 c now fes hfiles hne hd hdig hf hs hnd hn hu hg payload a? hv ha, ?_⟩
+  obtain ⟨h1, h2, h3⟩ := extract_benign (builtInput c fes) T fs hb hr
+  exact ⟨h1, h2, fun p hp => h3 (builtItem p) (List.mem_map.mpr ⟨p, hp, rfl⟩)⟩
+
+/-! a built package with a directory `/d` (02755), a file `/d/f` (0640, three bytes) and a link `/d/l -> f`, uncompressed -/
+def xD : FileE := ⟨[46, 47, 100], [47], [100], 0, 0o042755, [114], [114], [], 0, none, 4294967295, 1, []⟩
+def xF : FileE := ⟨[46, 47, 100, 47, 102], [47, 100, 47], [102], 3, 0o100640, [114], [114], [], 0, none, 4294967295, 1, List.replicate 64 48⟩
+def xL : FileE := ⟨[46, 47, 100, 47, 108], [47, 100, 47], [108], 0, 0o120777, [114], [114], [102], 0, none, 4294967295, 1, []⟩
+def xFes : List (FileE × Bytes) := [(xD, []), (xF, [1, 2, 3]), (xL, [])]
+def xCfg : Cfg := { C06.sampleCfg with files := [xD, xF, xL], directories := [[47], [47, 100, 47]], compression := .none }
+def xArchive : Bytes := C09.archiveFor xCfg 0 0 xFes
+def xBuilt : Package := build xCfg 1700000000 (Pipeline.hexOf C10.tSha256) xArchive xArchive
+def rootFs : Fs := ⟨[([], .dir 0o755)], [], 0o022⟩
+
+example : benign (builtInput xCfg xFes) = true := by decide
+theorem x_variant : Acc.getPayloadCompressorVariant xBuilt.md.header = .ok payloadCompressorDefault := by
+  have e : getString (C06.hdrOf (mkCtx xCfg 1700000000 (Pipeline.hexOf C10.tSha256 xArchive) (Pipeline.hexOf C10.tSha256 xArchive)))
+      IndexTag.RPMTAG_PAYLOADCOMPRESSOR = .err "notfound" :=
+    C06.getter_of_empty_slot IndexData.asStr
+      (s := (IndexTag.RPMTAG_PAYLOADCOMPRESSOR, fun x => x.c.compression.name.map fun p => .str p.1)) (C06.mem_slot (i := 44) rfl) rfl
+  show Acc.getPayloadCompressorVariant (C06.hdrOf _) = _
+  simp only [Acc.getPayloadCompressorVariant, e]
+/-- the benign clause instantiated: extracted into `/t` of a file system holding only the root, the directory has its
+setgid bit, the file its three bytes and mode 0640, the link its target -/
+example : ∃ inp, extractInput xBuilt none = some inp ∧ (extract inp [[116]] rootFs).out = .ok () ∧
+    (extract inp [[116]] rootFs).fs.get [[116], [100]] = some (.dir 0o2755) ∧
+    (extract inp [[116]] rootFs).fs.get [[116], [100], [102]] = some (.file [1, 2, 3] 0o640) ∧
+    (extract inp [[116]] rootFs).fs.get [[116], [100], [108]] = some (.symlink [102]) := by
+  have hfo : ∀ p ∈ xFes, C09.FileOk p := by
+    intro p hp
+    simp only [xFes, List.mem_cons, List.not_mem_nil, or_false] at hp
+    rcases hp with rfl | rfl | rfl <;> exact ⟨rfl, by decide, by constructor <;> decide⟩
+  have hsh : ∀ p ∈ xFes, Pipeline.DirShape p.1 := by
+    intro p hp
+    simp only [xFes, List.mem_cons, List.not_mem_nil, or_false] at hp
+    rcases hp with rfl | rfl | rfl <;> constructor <;> decide
+  obtain ⟨inp, h1, h2, _, h4⟩ := extract_package_benign C10.tSha256 xCfg 1700000000 xFes rfl (by decide)
+    (by unfold DirsOk; decide) (by decide) hfo hsh (by decide) (by decide) (uid := 0) (gid := 0)
+    (by decide) (by decide) xArchive none x_variant (by rw [if_pos (by decide)]; rfl) (by decide)
+    [[116]] rootFs
+    ⟨by decide, by decide, by decide, fun k h1 h2 => by simp at h2; omega, fun q hq => by
+      obtain ⟨s, rfl⟩ := hq; rfl⟩
+  exact ⟨inp, h1, h2, h4 _ List.mem_cons_self, h4 (xF, [1, 2, 3]) (by simp [xFes]), h4 (xL, []) (by simp [xFes])⟩
+
+end built
 
 end RpmVerif.C12
